@@ -58,7 +58,8 @@ CONSTANTS
   GenNoFaults,  \* generation only: TRUE switches the failing environment choices off
   GenHold,      \* generation only: relayed connections end only while a poll that reported a load
                 \* >= GenHold is held (or the session bound is exhausted); 0 = no restriction
-  MaxPhantom    \* slots the environment may occupy itself (the in-package rig calling tokens.get()); 0 = none
+  MaxPhantom,   \* slots the environment may occupy itself (the in-package rig calling tokens.get()); 0 = none
+  AddrKinds     \* what the offers of this configuration let the proxy derive as client address (see addr)
 
 VARIABLES
   inUse,        \* len(tokens.ch)
@@ -75,11 +76,17 @@ VARIABLES
   relayDialed,  \* set of URL classes handed to websocket.Dial
   reported,     \* last poll: [val |-> Clients field, inUse |-> len(ch) at that moment]
   nNoOffer, nTimeouts,
+  addr,         \* addr[s]: what remoteIPFromSDP derives from the offer of session s:
+                \*   "none"  nothing (no candidate, or only local / loopback / unspecified ones, c= unspecified)
+                \*   "own"   an address that only session s has (first remote candidate of its offer)
+                \*   "real"  the address of the machine the harness client really runs on (offer untouched)
+  told,         \* told[s]: the client_ip the relay was told for session s: [kind, of] with kind
+                \*   "-" not dialled, "absent" no parameter, "own" the own address of session `of`, "real", "other"
   phantom,      \* slots currently held by the environment itself ("phantom sessions" of the rig)
   pcase         \* policy-table emission only (see PolicyInit)
 
 vars == <<inUse, clients, mpc, cur, cls, sdp, hpc, released, owner, opened, closed,
-          relayDialed, reported, nNoOffer, nTimeouts, phantom, pcase>>
+          relayDialed, reported, nNoOffer, nTimeouts, addr, told, phantom, pcase>>
 
 Sessions == 1..MaxSess
 
@@ -168,6 +175,8 @@ InitCore ==
   /\ reported = [val |-> 0, inUse |-> 0]
   /\ nNoOffer = 0 /\ nTimeouts = 0
   /\ phantom = 0
+  /\ addr = [s \in Sessions |-> "-"]
+  /\ told = [s \in Sessions |-> [kind |-> "-", of |-> 0]]
 Init == InitCore /\ pcase = <<>>
 
 (* The proxy is at rest: every goroutine is parked on something only the
@@ -189,57 +198,57 @@ HoldOK == GenHold = 0 \/ (mpc = "polled" /\ reported.val >= GenHold) \/ (cur = M
 GetInc ==                                   \* tokens.get(): atomic add, before blocking
   /\ mpc = "tick" /\ cur < MaxSess
   /\ clients' = clients + 1 /\ mpc' = "get"
-  /\ UNCHANGED <<inUse, cur, cls, sdp, hpc, released, owner, opened, closed, relayDialed, reported, nNoOffer, nTimeouts, phantom, pcase>>
+  /\ UNCHANGED <<inUse, cur, cls, sdp, hpc, released, owner, opened, closed, relayDialed, reported, nNoOffer, nTimeouts, addr, told, phantom, pcase>>
 
 Get ==                                      \* tokens.get(): channel send; blocks at capacity
   /\ mpc = "get" /\ inUse < N
   /\ inUse' = inUse + 1 /\ cur' = cur + 1 /\ mpc' = "poll"
-  /\ UNCHANGED <<clients, cls, sdp, hpc, released, owner, opened, closed, relayDialed, reported, nNoOffer, nTimeouts, phantom, pcase>>
+  /\ UNCHANGED <<clients, cls, sdp, hpc, released, owner, opened, closed, relayDialed, reported, nNoOffer, nTimeouts, addr, told, phantom, pcase>>
 
 Poll ==                                     \* pollOffer: numClients := (count()/8)*8 ; POST /proxy
   /\ mpc = "poll"
   /\ reported' = [val |-> Round * (clients \div Round), inUse |-> inUse]
   /\ mpc' = "polled"
-  /\ UNCHANGED <<inUse, clients, cur, cls, sdp, hpc, released, owner, opened, closed, relayDialed, nNoOffer, nTimeouts, phantom, pcase>>
+  /\ UNCHANGED <<inUse, clients, cur, cls, sdp, hpc, released, owner, opened, closed, relayDialed, nNoOffer, nTimeouts, addr, told, phantom, pcase>>
 
 NoOffer ==                                  \* "no match": stay in pollOffer, poll again after 5 s
   /\ mpc = "polled" /\ EnvOK /\ nNoOffer < MaxNoOffer
   /\ mpc' = "poll" /\ nNoOffer' = nNoOffer + 1
-  /\ UNCHANGED <<inUse, clients, cur, cls, sdp, hpc, released, owner, opened, closed, relayDialed, reported, nTimeouts, phantom, pcase>>
+  /\ UNCHANGED <<inUse, clients, cur, cls, sdp, hpc, released, owner, opened, closed, relayDialed, reported, nTimeouts, addr, told, phantom, pcase>>
 
 ToRet == mpc' = "ret"
 
 BadBrokerResponse ==                        \* HTTP error, malformed JSON, error status, match without offer
   /\ mpc = "polled" /\ EnvOK /\ FaultOK /\ ToRet
-  /\ UNCHANGED <<inUse, clients, cur, cls, sdp, hpc, released, owner, opened, closed, relayDialed, reported, nNoOffer, nTimeouts, phantom, pcase>>
+  /\ UNCHANGED <<inUse, clients, cur, cls, sdp, hpc, released, owner, opened, closed, relayDialed, reported, nNoOffer, nTimeouts, addr, told, phantom, pcase>>
 
 OfferUndecodable ==                         \* offer string that DeserializeSessionDescription refuses
   /\ mpc = "polled" /\ EnvOK /\ FaultOK /\ ToRet
-  /\ UNCHANGED <<inUse, clients, cur, cls, sdp, hpc, released, owner, opened, closed, relayDialed, reported, nNoOffer, nTimeouts, phantom, pcase>>
+  /\ UNCHANGED <<inUse, clients, cur, cls, sdp, hpc, released, owner, opened, closed, relayDialed, reported, nNoOffer, nTimeouts, addr, told, phantom, pcase>>
 
-Offer(c, k) ==                              \* client match with relay URL class c and SDP kind k
+Offer(c, k, a) ==                              \* client match: relay URL class c, SDP kind k, derivable client address a
   /\ mpc = "polled" /\ EnvOK /\ (k = "good" \/ FaultOK)
-  /\ cls' = [cls EXCEPT ![cur] = c] /\ sdp' = [sdp EXCEPT ![cur] = k]
+  /\ cls' = [cls EXCEPT ![cur] = c] /\ sdp' = [sdp EXCEPT ![cur] = k] /\ addr' = [addr EXCEPT ![cur] = a]
   /\ mpc' = "check"
-  /\ UNCHANGED <<inUse, clients, cur, hpc, released, owner, opened, closed, relayDialed, reported, nNoOffer, nTimeouts, phantom, pcase>>
+  /\ UNCHANGED <<inUse, clients, cur, hpc, released, owner, opened, closed, relayDialed, reported, nNoOffer, nTimeouts, told, phantom, pcase>>
 
 RelayRejected(c) ==                         \* runSession: bad or rejected Relay URL
   /\ mpc = "check" /\ cls[cur] = c /\ ~CodeAccepts(c) /\ ToRet
-  /\ UNCHANGED <<inUse, clients, cur, cls, sdp, hpc, released, owner, opened, closed, relayDialed, reported, nNoOffer, nTimeouts, phantom, pcase>>
+  /\ UNCHANGED <<inUse, clients, cur, cls, sdp, hpc, released, owner, opened, closed, relayDialed, reported, nNoOffer, nTimeouts, addr, told, phantom, pcase>>
 
 RelayOK ==
   /\ mpc = "check" /\ CodeAccepts(cls[cur]) /\ mpc' = "pc"
-  /\ UNCHANGED <<inUse, clients, cur, cls, sdp, hpc, released, owner, opened, closed, relayDialed, reported, nNoOffer, nTimeouts, phantom, pcase>>
+  /\ UNCHANGED <<inUse, clients, cur, cls, sdp, hpc, released, owner, opened, closed, relayDialed, reported, nNoOffer, nTimeouts, addr, told, phantom, pcase>>
 
 PCFail ==                                   \* makePeerConnectionFromOffer fails (SetRemoteDescription)
   /\ mpc = "pc" /\ sdp[cur] = "bad" /\ ToRet
   /\ sdp' = [sdp EXCEPT ![cur] = "-"]
-  /\ UNCHANGED <<inUse, clients, cur, cls, hpc, released, owner, opened, closed, relayDialed, reported, nNoOffer, nTimeouts, phantom, pcase>>
+  /\ UNCHANGED <<inUse, clients, cur, cls, hpc, released, owner, opened, closed, relayDialed, reported, nNoOffer, nTimeouts, addr, told, phantom, pcase>>
 
 PCOk ==                                     \* answer created and POSTed to /answer
   /\ mpc = "pc" /\ sdp[cur] = "good" /\ mpc' = "answer"
   /\ sdp' = [sdp EXCEPT ![cur] = "-"]
-  /\ UNCHANGED <<inUse, clients, cur, cls, hpc, released, owner, opened, closed, relayDialed, reported, nNoOffer, nTimeouts, phantom, pcase>>
+  /\ UNCHANGED <<inUse, clients, cur, cls, hpc, released, owner, opened, closed, relayDialed, reported, nNoOffer, nTimeouts, addr, told, phantom, pcase>>
 
 (* runSession gives the slot up (answer failure, timeout).  Pinned code:
    always ret().  Repaired code: ret() only if the handler has not claimed
@@ -252,35 +261,35 @@ MainGiveUp ==
 
 AnswerFail ==                               \* "client gone", HTTP error or garbage on /answer ; pc.Close()
   /\ mpc = "answer" /\ EnvOK /\ FaultOK /\ MainGiveUp
-  /\ UNCHANGED <<inUse, clients, cur, cls, sdp, hpc, released, opened, relayDialed, reported, nNoOffer, nTimeouts, phantom, pcase>>
+  /\ UNCHANGED <<inUse, clients, cur, cls, sdp, hpc, released, opened, relayDialed, reported, nNoOffer, nTimeouts, addr, told, phantom, pcase>>
 
 AnswerOK ==
   /\ mpc = "answer" /\ EnvOK /\ mpc' = "waitdc"
-  /\ UNCHANGED <<inUse, clients, cur, cls, sdp, hpc, released, owner, opened, closed, relayDialed, reported, nNoOffer, nTimeouts, phantom, pcase>>
+  /\ UNCHANGED <<inUse, clients, cur, cls, sdp, hpc, released, owner, opened, closed, relayDialed, reported, nNoOffer, nTimeouts, addr, told, phantom, pcase>>
 
 DCSeen ==                                   \* select: <-dataChan ; "Connection successful."
   /\ mpc = "waitdc" /\ opened[cur] /\ mpc' = "tick"
-  /\ UNCHANGED <<inUse, clients, cur, cls, sdp, hpc, released, owner, opened, closed, relayDialed, reported, nNoOffer, nTimeouts, phantom, pcase>>
+  /\ UNCHANGED <<inUse, clients, cur, cls, sdp, hpc, released, owner, opened, closed, relayDialed, reported, nNoOffer, nTimeouts, addr, told, phantom, pcase>>
 
 DCTimerFire ==                              \* select: <-time.After(20 s) chosen
   /\ mpc = "waitdc" /\ EnvOK /\ nTimeouts < MaxTimeouts
   /\ mpc' = "dctimeout" /\ nTimeouts' = nTimeouts + 1
-  /\ UNCHANGED <<inUse, clients, cur, cls, sdp, hpc, released, owner, opened, closed, relayDialed, reported, nNoOffer, phantom, pcase>>
+  /\ UNCHANGED <<inUse, clients, cur, cls, sdp, hpc, released, owner, opened, closed, relayDialed, reported, nNoOffer, addr, told, phantom, pcase>>
 
 DCTimeoutRelease ==                         \* pc.Close() ; tokens.ret()
   /\ mpc = "dctimeout" /\ MainGiveUp
-  /\ UNCHANGED <<inUse, clients, cur, cls, sdp, hpc, released, opened, relayDialed, reported, nNoOffer, nTimeouts, phantom, pcase>>
+  /\ UNCHANGED <<inUse, clients, cur, cls, sdp, hpc, released, opened, relayDialed, reported, nNoOffer, nTimeouts, addr, told, phantom, pcase>>
 
 MainReleaseDec ==                           \* tokens.ret(): atomic add
   /\ mpc = "ret"
   /\ clients' = clients - 1 /\ released' = [released EXCEPT ![cur] = @ + 1]
   /\ mpc' = "ret2"
-  /\ UNCHANGED <<inUse, cur, cls, sdp, hpc, owner, opened, closed, relayDialed, reported, nNoOffer, nTimeouts, phantom, pcase>>
+  /\ UNCHANGED <<inUse, cur, cls, sdp, hpc, owner, opened, closed, relayDialed, reported, nNoOffer, nTimeouts, addr, told, phantom, pcase>>
 
 MainReleaseTake ==                          \* tokens.ret(): channel receive; blocks on an empty channel
   /\ mpc = "ret2" /\ inUse > 0
   /\ inUse' = inUse - 1 /\ mpc' = "tick"
-  /\ UNCHANGED <<clients, cur, cls, sdp, hpc, released, owner, opened, closed, relayDialed, reported, nNoOffer, nTimeouts, phantom, pcase>>
+  /\ UNCHANGED <<clients, cur, cls, sdp, hpc, released, owner, opened, closed, relayDialed, reported, nNoOffer, nTimeouts, addr, told, phantom, pcase>>
 
 (* ---- data channel callback and handler goroutine ---- *)
 (* OnDataChannel: close(dataChan) ; go handler(...).  Possible from the moment
@@ -295,7 +304,7 @@ DCOpen(s) ==
   /\ hpc[s] = "none" /\ ~opened[s]
   /\ opened' = [opened EXCEPT ![s] = TRUE]
   /\ hpc' = [hpc EXCEPT ![s] = "spawned"]
-  /\ UNCHANGED <<inUse, clients, mpc, cur, cls, sdp, released, owner, closed, relayDialed, reported, nNoOffer, nTimeouts, phantom, pcase>>
+  /\ UNCHANGED <<inUse, clients, mpc, cur, cls, sdp, released, owner, closed, relayDialed, reported, nNoOffer, nTimeouts, addr, told, phantom, pcase>>
 
 HandlerStart(s) ==                          \* repaired code: claim the slot or stand down
   /\ hpc[s] = "spawned"
@@ -303,40 +312,47 @@ HandlerStart(s) ==                          \* repaired code: claim the slot or 
      ELSE IF owner[s] = "none"
        THEN hpc' = [hpc EXCEPT ![s] = "dial"] /\ owner' = [owner EXCEPT ![s] = "handler"]
        ELSE hpc' = [hpc EXCEPT ![s] = "done"] /\ UNCHANGED owner
-  /\ UNCHANGED <<inUse, clients, mpc, cur, cls, sdp, released, opened, closed, relayDialed, reported, nNoOffer, nTimeouts, phantom, pcase>>
+  /\ UNCHANGED <<inUse, clients, mpc, cur, cls, sdp, released, opened, closed, relayDialed, reported, nNoOffer, nTimeouts, addr, told, phantom, pcase>>
+
+(* datachannelHandler: `if remoteAddr != nil { q.Set("client_ip", ...) }` on the URL parsed for THIS
+   connection: the session's own address, or no parameter at all. *)
+ToldByCode(s) == CASE addr[s] = "own" -> [kind |-> "own", of |-> s]
+                   [] addr[s] = "real" -> [kind |-> "real", of |-> 0]
+                   [] OTHER -> [kind |-> "absent", of |-> 0]
 
 HandlerDial(s) ==                           \* websocket.DefaultDialer.Dial(relay URL)
   /\ hpc[s] = "dial"
   /\ relayDialed' = relayDialed \cup {cls[s]}
   /\ hpc' = [hpc EXCEPT ![s] = "dialing"]
-  /\ UNCHANGED <<inUse, clients, mpc, cur, cls, sdp, released, owner, opened, closed, reported, nNoOffer, nTimeouts, phantom, pcase>>
+  /\ told' = [told EXCEPT ![s] = ToldByCode(s)]     \* client_ip query parameter
+  /\ UNCHANGED <<inUse, clients, mpc, cur, cls, sdp, released, owner, opened, closed, reported, nNoOffer, nTimeouts, addr, phantom, pcase>>
 
 RelayDialFail(s) ==
   /\ hpc[s] = "dialing" /\ EnvOK /\ FaultOK
   /\ hpc' = [hpc EXCEPT ![s] = "ret"]
-  /\ UNCHANGED <<inUse, clients, mpc, cur, cls, sdp, released, owner, opened, closed, relayDialed, reported, nNoOffer, nTimeouts, phantom, pcase>>
+  /\ UNCHANGED <<inUse, clients, mpc, cur, cls, sdp, released, owner, opened, closed, relayDialed, reported, nNoOffer, nTimeouts, addr, told, phantom, pcase>>
 
 RelayAccept(s) ==
   /\ hpc[s] = "dialing" /\ EnvOK
   /\ hpc' = [hpc EXCEPT ![s] = "relaying"]
-  /\ UNCHANGED <<inUse, clients, mpc, cur, cls, sdp, released, owner, opened, closed, relayDialed, reported, nNoOffer, nTimeouts, phantom, pcase>>
+  /\ UNCHANGED <<inUse, clients, mpc, cur, cls, sdp, released, owner, opened, closed, relayDialed, reported, nNoOffer, nTimeouts, addr, told, phantom, pcase>>
 
 RelayEnd(s) ==                              \* relay or client closes; copyLoop ends
   /\ hpc[s] = "relaying" /\ ((EnvOK /\ HoldOK) \/ s \in closed)   \* a closed peer connection ends the copy loop by itself
   /\ hpc' = [hpc EXCEPT ![s] = "ret"]
-  /\ UNCHANGED <<inUse, clients, mpc, cur, cls, sdp, released, owner, opened, closed, relayDialed, reported, nNoOffer, nTimeouts, phantom, pcase>>
+  /\ UNCHANGED <<inUse, clients, mpc, cur, cls, sdp, released, owner, opened, closed, relayDialed, reported, nNoOffer, nTimeouts, addr, told, phantom, pcase>>
 
 HandlerReleaseDec(s) ==                     \* deferred tokens.ret(): atomic add
   /\ hpc[s] = "ret"
   /\ clients' = clients - 1 /\ released' = [released EXCEPT ![s] = @ + 1]
   /\ hpc' = [hpc EXCEPT ![s] = "ret2"]
-  /\ UNCHANGED <<inUse, mpc, cur, cls, sdp, owner, opened, closed, relayDialed, reported, nNoOffer, nTimeouts, phantom, pcase>>
+  /\ UNCHANGED <<inUse, mpc, cur, cls, sdp, owner, opened, closed, relayDialed, reported, nNoOffer, nTimeouts, addr, told, phantom, pcase>>
 
 HandlerReleaseTake(s) ==                    \* deferred tokens.ret(): channel receive
   /\ hpc[s] = "ret2" /\ inUse > 0
   /\ inUse' = inUse - 1
   /\ hpc' = [hpc EXCEPT ![s] = "done"]
-  /\ UNCHANGED <<clients, mpc, cur, cls, sdp, released, owner, opened, closed, relayDialed, reported, nNoOffer, nTimeouts, phantom, pcase>>
+  /\ UNCHANGED <<clients, mpc, cur, cls, sdp, released, owner, opened, closed, relayDialed, reported, nNoOffer, nTimeouts, addr, told, phantom, pcase>>
 
 (* ---- phantom sessions ----
    The in-package rig may occupy slots itself by calling tokens.get() /
@@ -347,12 +363,12 @@ HandlerReleaseTake(s) ==                    \* deferred tokens.ret(): channel re
 PhantomGet ==
   /\ mpc = "polled" /\ EnvOK /\ phantom < MaxPhantom /\ inUse < N
   /\ clients' = clients + 1 /\ inUse' = inUse + 1 /\ phantom' = phantom + 1
-  /\ UNCHANGED <<mpc, cur, cls, sdp, hpc, released, owner, opened, closed, relayDialed, reported, nNoOffer, nTimeouts, pcase>>
+  /\ UNCHANGED <<mpc, cur, cls, sdp, hpc, released, owner, opened, closed, relayDialed, reported, nNoOffer, nTimeouts, addr, told, pcase>>
 
 PhantomRet ==
   /\ mpc = "polled" /\ EnvOK /\ phantom > 0
   /\ clients' = clients - 1 /\ inUse' = inUse - 1 /\ phantom' = phantom - 1
-  /\ UNCHANGED <<mpc, cur, cls, sdp, hpc, released, owner, opened, closed, relayDialed, reported, nNoOffer, nTimeouts, pcase>>
+  /\ UNCHANGED <<mpc, cur, cls, sdp, hpc, released, owner, opened, closed, relayDialed, reported, nNoOffer, nTimeouts, addr, told, pcase>>
 
 (* All sessions of the bound are over and the loop is back at its ticker. *)
 AllOver == cur = MaxSess /\ mpc = "tick" /\ \A s \in Sessions : hpc[s] \in {"none", "done"}
@@ -367,7 +383,7 @@ ProxyStep ==
 EnvStep ==
   \/ NoOffer \/ BadBrokerResponse \/ OfferUndecodable \/ AnswerFail \/ AnswerOK \/ DCTimerFire
   \/ PhantomGet \/ PhantomRet
-  \/ (\E c \in Classes, k \in {"good", "bad"} : Offer(c, k))
+  \/ (\E c \in Classes, k \in {"good", "bad"}, a \in AddrKinds : Offer(c, k, a))
   \/ (\E s \in Sessions : DCOpen(s) \/ RelayDialFail(s) \/ RelayAccept(s) \/ RelayEnd(s))
 
 Next == ProxyStep \/ EnvStep \/ Finished
@@ -401,6 +417,7 @@ TypeOK ==
   /\ opened \in [Sessions -> BOOLEAN]
   /\ closed \subseteq Sessions
   /\ phantom \in 0..MaxPhantom
+  /\ addr \in [Sessions -> {"-", "none", "own", "real"}]
   /\ relayDialed \subseteq AllClasses
 
 (* the main loop has left session s *)
@@ -427,6 +444,12 @@ RetNeverBlocks == InRet <= inUse
 CounterMatches == (mpc # "get" /\ InRet = 0) => clients = inUse
 ReportedOK == reported.val % Round = 0 /\ reported.val >= 0 /\ reported.val <= reported.inUse
 RelayPolicy == relayDialed \subseteq {c \in AllClasses : Accepted(Pattern, AllowNonTLS, c)}
+(* C18, proxy side: the relay (and through it the bridge) is never told an address that belongs to
+   ANOTHER session.  Don't-care: no parameter although the offer had an address; the real address of
+   the client's machine although the offer text hid it (it IS this client's address); any address that
+   is no session's ("other": the bridge sanitises what it is given, that is the server half of C18). *)
+ToldAddrRight == \A s \in Sessions : told[s].kind = "own" => told[s].of = s
+
 (* after any sequence of sessions the loop polls with full capacity: only its own slot is taken *)
 FullCapacityAgain ==
   /\ ((mpc \in {"poll", "polled"} /\ \A s \in 1..(cur - 1) : Ended(s)) => (inUse = 1 + phantom /\ clients = 1 + phantom))
